@@ -29,10 +29,21 @@ static const double BAND_EITHER_DEG = 10e-9 / 110500.0;
 
 // ------------------------------------------------------------------ library calls with outcome capture
 struct Out { int outcome = 0; std::string what; };      // 0 returned, 1 GeographicErr, 2 foreign exception, 3 fatal signal
+// mc::crashed without the signal-mask save/restore (two system calls per library call).  Sound because
+// mc::crash_install() installs its handlers with SA_NODEFER and an empty sa_mask: the signal mask inside the handler
+// equals the mask at the sigsetjmp, so nothing needs restoring.
+template <class F> static inline int crashed_fast(F f) {
+  mc::crash_install();
+  if (sigsetjmp(mc::crash_jmp(), 0)) return mc::crash_sig();
+  mc::crash_armed() = 1;
+  try { f(); } catch (...) { mc::crash_armed() = 0; throw; }
+  mc::crash_armed() = 0;
+  return 0;
+}
 template <class F> static Out guard(F f, bool contain_signals) {
   Out o;
   try {
-    if (contain_signals) { int sg = mc::crashed(f); if (sg) { o.outcome = 3; o.what = "signal " + std::to_string(sg); } }
+    if (contain_signals) { int sg = crashed_fast(f); if (sg) { o.outcome = 3; o.what = "signal " + std::to_string(sg); } }
     else f();
   }
   catch (const GeographicErr& e) { o.outcome = 1; o.what = e.what(); }
@@ -251,7 +262,8 @@ static bool check_point(Ctx& ctx, int zone, bool northp, double x, double y, boo
 static std::vector<double> block_offsets(bool thorough) {
   std::vector<double> d{0, 50000};
   if (!thorough) { d.push_back(1.0); d.push_back(1e-6); d.push_back(10000.0); return d; }
-  for (int k = -6; k <= 4; ++k) d.push_back(std::pow(10.0, k));
+  // every m * 10^k metres, m = 1..9, k = -6..4 (decimal literals, correctly rounded by strtod)
+  for (int k = -6; k <= 4; ++k) for (int m = 1; m <= 9; ++m) { char b[32]; snprintf(b, sizeof b, "%de%d", m, k); d.push_back(strtod(b, nullptr)); }
   d.push_back(0.3); d.push_back(99999.7); d.push_back(12345.678901); d.push_back(98765.432109);
   return d;
 }
@@ -268,12 +280,29 @@ static void block_points(double c0, const std::vector<double>& off, bool thoroug
   out.push_back(std::nextafter(c0 + 100000.0, -INFINITY));
 }
 
+// a second, small coordinate set used as a full cross product (thorough tier)
+static void block_points_cross(double c0, std::vector<double>& out) {
+  out.clear();
+  for (double d : {0.0, 5e-7, 1e-6, 0.3, 9.99999, 10.0, 1234.5, 50000.0, 99990.0, 99999.999999}) out.push_back(c0 + d);
+  out.push_back(std::nextafter(c0 + 1.0, -INFINITY));
+  out.push_back(std::nextafter(c0 + 100000.0, -INFINITY));
+}
+// all points of one block
+template <class CP> static void block_sweep(bool T, const std::vector<double>& xs, const std::vector<double>& ys, const std::vector<double>& xc, const std::vector<double>& yc, CP check) {
+  size_t n = xs.size();
+  for (size_t i = 0; i < n; ++i) {
+    check(xs[i], ys[i]);
+    if (T && i != n - 1 - i) check(xs[i], ys[n - 1 - i]);
+    if (T) { size_t j = (i + n / 3) % n; if (j != i && j != n - 1 - i) check(xs[i], ys[j]); }
+  }
+  if (T) for (double x : xc) for (double y : yc) check(x, y);
+}
+
 // ------------------------------------------------------------------ arbitrary strings: Reverse and Decode against the grammar
 static void check_string(Ctx& ctx, const std::string& s) {
   Ctx::Case cs(ctx);
-  std::string key = "'" + printable(s) + "'";
-  mc::Fields F{{"string", printable(s)}, {"len", fmti((long long)s.size())}};
-  auto FF = [&](const char* kind) { mc::Fields g = F; g.push_back({"kind", kind}); return g; };
+  struct LazyKey { const std::string& s; operator std::string() const { return "'" + printable(s) + "'"; } } key{s};   // built only on failure
+  auto FF = [&](const char* kind) { return mc::Fields{{"string", printable(s)}, {"len", fmti((long long)s.size())}, {"kind", kind}}; };
   mgrsref::Parsed P = mgrsref::parse(s);
   // UTM: does the block exist in the band?
   int ra = INT_MIN; bool either = false;
@@ -314,7 +343,7 @@ static void check_string(Ctx& ctx, const std::string& s) {
     } else if (o.outcome != 0 || g != e.gridzone || b != e.block || ea != e.easting || no != e.northing)
       ctx.fail(key, o.outcome ? "Decode rejects a string of its documented grammar: " + o.what : "Decode splits into '" + printable(g) + "' '" + printable(b) + "' '" + printable(ea) + "' '" + printable(no) + "'", FF("decode-split"));
   }
-  if (ctx.want_sample()) ctx.sample(key + " kind " + fmti(P.kind));
+  if (ctx.want_sample()) ctx.sample(std::string(key) + " kind " + fmti(P.kind));
 }
 static void enum_strings(Ctx& ctx, const std::string& al, int L) {
   int n = (int)al.size();
@@ -443,35 +472,29 @@ int main(int argc, char** argv) {
   {
     std::vector<double> off = block_offsets(T);
     ctx.sub("utm-points");
-    ctx.bound("utm-points", std::string("every block (zone x 8 columns x rows -90..94): offsets {0, 50 km") + (T ? ", 10^k m (k=-6..4), 0.3, 99999.7, 12345.678901, 98765.432109, each +-1 ulp" : ", 1 m and 1 ulp below, 1 um and 1 ulp above, 10 km") + ", 100 km - 1 ulp} paired diagonally" + (T ? " and anti-diagonally" : "") + "; prec " + (T ? "-2..12" : "{-2,-1,0,2,5,6,11,12}") + "; both Forward overloads, Reverse centre + SW corner, Forward again");
+    ctx.bound("utm-points", std::string("every block (zone x 8 columns x rows -90..94): offsets {0, 50 km") + (T ? ", m*10^k m (m=1..9, k=-6..4), 0.3, 99999.7, 12345.678901, 98765.432109, each +-1 ulp" : ", 1 m and 1 ulp below, 1 um and 1 ulp above, 10 km") + ", 100 km - 1 ulp} paired diagonally" + (T ? ", anti-diagonally and with a one-third rotation (3 x 312 points), plus the full 12 x 12 cross product of {0, 0.5 um, 1 um, 0.3, 9.99999, 10, 1234.5, 50 km, 99990, 99999.999999, 1 m - 1 ulp, 100 km - 1 ulp}" : "") + "; prec " + (T ? "-2..12" : "{-2,-1,0,2,5,6,11,12}") + "; both Forward overloads, Reverse centre + SW corner, Forward again");
     for (int zone : zones) for (int col = 0; col < 8; ++col) {
       if (!ctx.take()) continue;
-      std::vector<double> xs, ys;
+      std::vector<double> xs, ys, xc, yc;
       for (int ra = -90; ra < 95; ++ra) {
         bool np = ra >= 0;
-        block_points((col + 1) * 100000.0, off, T, xs);
-        block_points(np ? ra * 100000.0 : (ra + 100) * 100000.0, off, T, ys);
+        double x0 = (col + 1) * 100000.0, y0 = np ? ra * 100000.0 : (ra + 100) * 100000.0;
+        block_points(x0, off, T, xs); block_points(y0, off, T, ys);
+        if (T) { block_points_cross(x0, xc); block_points_cross(y0, yc); }
         std::set<std::string> seen;
-        size_t n = xs.size();
-        for (size_t i = 0; i < n; ++i) {
-          check_point(ctx, zone, np, xs[i], ys[i], T, &seen);
-          if (T && i != n - 1 - i) check_point(ctx, zone, np, xs[i], ys[n - 1 - i], T, &seen);
-        }
+        block_sweep(T, xs, ys, xc, yc, [&](double x, double y) { check_point(ctx, zone, np, x, y, T, &seen); });
       }
     }
     ctx.sub("ups-points");
     ctx.bound("ups-points", "every UPS block (24 x 24 south, 14 x 14 north), same offsets and precisions");
     for (int np = 0; np < 2; ++np) for (int xh = mgrsref::ups_min(np); xh < mgrsref::ups_max(np); ++xh) {
       if (!ctx.take()) continue;
-      std::vector<double> xs, ys;
+      std::vector<double> xs, ys, xc, yc;
       for (int yh = mgrsref::ups_min(np); yh < mgrsref::ups_max(np); ++yh) {
         block_points(xh * 100000.0, off, T, xs); block_points(yh * 100000.0, off, T, ys);
+        if (T) { block_points_cross(xh * 100000.0, xc); block_points_cross(yh * 100000.0, yc); }
         std::set<std::string> seen;
-        size_t n = xs.size();
-        for (size_t i = 0; i < n; ++i) {
-          check_point(ctx, 0, np, xs[i], ys[i], T, &seen);
-          if (T && i != n - 1 - i) check_point(ctx, 0, np, xs[i], ys[n - 1 - i], T, &seen);
-        }
+        block_sweep(T, xs, ys, xc, yc, [&](double x, double y) { check_point(ctx, 0, np, x, y, T, &seen); });
       }
     }
   }
@@ -479,10 +502,12 @@ int main(int argc, char** argv) {
   // ================================================================= band edges: points just either side of every band boundary
   {
     ctx.sub("band-edges");
-    ctx.bound("band-edges", "zone x 8 columns x 3 eastings x 19 band boundaries (both hemispheres): northing of the boundary found by bisection on UTMUPS::Reverse, points at +-{1 um, 1 mm, 1 m, 1 km}; band letter of Forward (both overloads) = band of the latitude");
+    ctx.bound("band-edges", std::string("zone x 8 columns x ") + (T ? "21 eastings (every 5 km and 99999 m)" : "3 eastings") + " x 18 band boundaries (both hemispheres): northing of the boundary found by bisection on UTMUPS::Reverse, points at +-{1 um, 1 mm, 1 m, 1 km}; band letter of Forward (both overloads) = band of the latitude");
     for (int zone : zones) for (int col = 0; col < 8; ++col) {
       if (!ctx.take()) continue;
-      for (double xo : {0.0, 50000.0, 99999.0}) for (int b = 1; b < 20; ++b) {
+      std::vector<double> xos{0.0, 50000.0, 99999.0};
+      if (T) { xos.clear(); for (int k = 0; k < 20; ++k) xos.push_back(k * 5000.0); xos.push_back(99999.0); }
+      for (double xo : xos) for (int b = 1; b < 20; ++b) {
         if (b == 10) continue;                        // the equator is a row boundary, exercised in forward-range
         double x = (col + 1) * 100000.0 + xo, edge = utmref::band_south(b);
         bool np = b > 10;
@@ -596,7 +621,7 @@ int main(int argc, char** argv) {
   {
     ctx.sub("strings");
     std::string al = "0169ACIOMNXZa- "; al += '\0';
-    int L = 5;
+    int L = T ? 6 : 5;
     ctx.bound("strings", "all strings of length <= " + fmti(L) + " over the 16 characters '0169ACIOMNXZa- ' + NUL; Reverse (both centerp) and Decode against the documented grammar, GeographicErr and untouched outputs on rejection");
     enum_strings(ctx, al, L);
     // digit strings of every length 0..27 after valid and invalid block prefixes (precision limit, odd counts, non-digits)
@@ -615,8 +640,8 @@ int main(int argc, char** argv) {
       }
     }
     ctx.sub("string-edits");
-    int nvalid = T ? 200 : 40;
-    ctx.bound("string-edits", "every single-character deletion / insertion / substitution over '0123456789ACHIJMNOVXZaz- ' + NUL of " + fmti(nvalid) + " valid UTM strings (prec 0..5 and 11, with and without leading zero) and 16 UPS strings");
+    int nvalid = T ? 3000 : 40, nups = T ? 64 : 16;
+    ctx.bound("string-edits", "every single-character deletion / insertion / substitution over '0123456789ACHIJMNOVXZaz- ' + NUL of " + fmti(nvalid) + " valid UTM strings (prec 0..5 and 11, with and without leading zero) and " + fmti(nups) + " UPS strings");
     std::string al2 = "0123456789ACHIJMNOVXZaz- "; al2 += '\0';
     for (int i = 0; i < nvalid; ++i) {
       if (!ctx.take()) continue;
@@ -628,10 +653,10 @@ int main(int argc, char** argv) {
       std::string s = f.s; if (zone < 10 && (i & 1)) s = s.substr(1);
       edits(ctx, s, al2);
     }
-    for (int i = 0; i < 16; ++i) {
+    for (int i = 0; i < nups; ++i) {
       if (!ctx.take()) continue;
       bool np = i & 1; int lo = mgrsref::ups_min(np), n = mgrsref::ups_max(np) - lo;
-      double x = (lo + (i * 5) % n) * 100000.0 + 12345.678 * (i + 1) / 3, y = (lo + (i * 11) % n) * 100000.0 + 2345.678 * (i + 1);
+      double x = (lo + (i * 5) % n) * 100000.0 + std::fmod(12345.678 * (i + 1) / 3, 100000.0), y = (lo + (i * 11) % n) * 100000.0 + std::fmod(2345.678 * (i + 1), 100000.0);
       MF f = lib_fwd(0, np, x, y, i % 6);
       if (f.o.outcome != 0) { Ctx::Case cs(ctx); ctx.fail("ups seed " + fmti(i), "could not produce a valid string: " + f.o.what, {{"kind", "seed"}}); continue; }
       edits(ctx, f.s, al2);
